@@ -332,7 +332,7 @@ def _codes(s):
 
 class Tr:
     def __init__(self, lean_name, env, ret_ty, externals=None, isinstance_map=None, attrs=None, consts=None, fuel=None,
-                 generic_exc=False, whole=None, methods=None, implicit=""):
+                 generic_exc=False, whole=None, methods=None, implicit="", join=False, locals_=None):
         self.name = lean_name
         # generic_exc: the function is abstracted over the exception type `ε` with `exc : String → ε` naming built-in classes
         self.generic = generic_exc
@@ -346,6 +346,12 @@ class Tr:
         # implicit binders (type parameters) of the spec, repeated on the auxiliary loop definitions
         self.implicit = (" " + implicit) if implicit else ""
         self.self_params, self.self_state = [], []
+        # join=True: the statements after an `if` / `try` are emitted ONCE as a local function `k__N` of the variables the
+        # branches assign and the rest reads (instead of being copied into every branch)
+        self.join = join
+        self.njoin = 0
+        # declared types of locals (`Optional[str]` variables: a value of the base type is wrapped in `some`)
+        self.declared = dict(locals_ or {})
         self.exc_ty = "ε" if generic_exc else "String"
         self.env = dict(env)            # python variable -> type
         self.ret_ty = ret_ty
@@ -473,7 +479,12 @@ class Tr:
             if isinstance(e.value, int):
                 return E("(%d : Int)" % e.value, INT)
             if isinstance(e.value, str):
+                if isinstance(want, tuple) and want[0] == "Option":
+                    x = self.const_str(e, want[1])
+                    return E("(some %s)" % x.text, want)
                 return self.const_str(e, want)
+            if e.value is None and isinstance(want, tuple) and want[0] == "Option":
+                return E("none", want)
             raise Untranslatable("constant %r" % (e.value,))
         if isinstance(e, ast.Name):
             if e.id in self.env:
@@ -583,6 +594,12 @@ class Tr:
             if a.ty == CHAR and isinstance(r, ast.Constant) and isinstance(r.value, str):
                 txt = "(%s.contains %s)" if isinstance(op, ast.In) else "(!%s.contains %s)"
                 return self.lift([a], lambda ts: (txt % ("(%s : List Nat)" % _codes(r.value), ts[0]), BOOL))
+            if a.ty == ("Option", CHAR) and isinstance(r, ast.Constant) and isinstance(r.value, str):
+                # Optional[str] variable: None is in no string
+                txt = "(match %s with | some c__ => %s.contains c__ | none => false)"
+                if isinstance(op, ast.NotIn):
+                    raise Untranslatable("`not in` on an optional character")
+                return self.lift([a], lambda ts: (txt % (ts[0], "(%s : List Nat)" % _codes(r.value)), BOOL))
             if a.ty == CHAR:
                 b = self.expr(r)
                 if b.ty == TEXT:
@@ -834,7 +851,10 @@ class Tr:
         if isinstance(s, ast.Assign) and len(s.targets) == 1:
             t = s.targets[0]
             if isinstance(t, ast.Name):
-                e = self.expr(s.value, want=self.env.get(t.id))
+                decl = self.declared.get(t.id)
+                e = self.expr(s.value, want=decl or self.env.get(t.id))
+                if decl is not None and isinstance(decl, tuple) and decl[0] == "Option" and e.ty == decl[1]:
+                    e = self.lift([e], lambda ts: ("(some %s)" % ts[0], decl))
                 self.assign(t.id, e.ty)
                 return self.bind(e, t.id, cont())
             if isinstance(t, ast.Tuple) and all(isinstance(x, ast.Name) for x in t.elts):
@@ -878,10 +898,17 @@ class Tr:
         if isinstance(s, ast.If):
             c = self.test(s.test)
             v = self.fresh() if c.partial else None
+            if self.join and rest:
+                return self.joined(list(s.body) + list(s.orelse), cont, lambda kk: self.bind(c, v, "(if %s then\n%s\nelse\n%s)" % (
+                    v, _ind(self.block(s.body, kk)), _ind(self.block(s.orelse, kk)))) if c.partial else
+                    "(if %s then\n%s\nelse\n%s)" % (c.text, _ind(self.block(s.body, kk)), _ind(self.block(s.orelse, kk))))
             text = "(if %s then\n%s\nelse\n%s)" % (v or c.text, _ind(self.block(s.body, cont)), _ind(self.block(s.orelse, cont)))
             return self.bind(c, v, text) if c.partial else text
         if isinstance(s, ast.Try) and not s.finalbody and s.handlers and (
                 len(s.body) == 1 or all(len(h.body) == 1 and isinstance(h.body[0], ast.Raise) for h in s.handlers)):
+            if self.join and rest:
+                stmts = list(s.body) + [x for h in s.handlers for x in h.body] + list(s.orelse)
+                return self.joined(stmts, cont, lambda kk: self.try_stmt(s, kk))
             return self.try_stmt(s, cont)
         if isinstance(s, ast.For) and not s.orelse:
             return self.for_loop(s, cont)
@@ -996,6 +1023,36 @@ class Tr:
         self.aux.append("%s\n  | 0%s => .raise OUTOFFUEL__\n  | fuel__ + 1%s =>\n%s\n" % (sig, stpat, stpat, _ind(body, 4)))
         call = "(%s)" % " ".join([fname] + free + ["(%s).toNat" % fuel.text] + state)
         return self._after(call, state, cont)
+
+    def joined(self, stmts, cont, build):
+        """
+        `build(k)` translates a branching statement whose branches continue with `k()`; here every branch calls ONE
+        auxiliary definition `<fn>.kN` holding the rest of the block, applied to the variables it reads (first the ones
+        that are not assigned by the branches, then the ones that are). Only at function level (inside a loop body the
+        rest contains the loop's recursive call: the branches get their own copy as without `join`).
+        """
+        if self.in_loop:
+            return build(cont)
+        self.njoin += 1
+        name = "%s.k%d" % (self.name, self.njoin)
+        before = list(self.env)
+        # dry run of the branches, only to learn which variables (and types) they define; everything it emitted is dropped
+        snap = (len(self.aux), self.nloop, self.njoin, self.nfresh, list(self.fuel), set(self.constructs))
+        build(lambda: "DRY__")
+        after_build = set(self.env)
+        del self.aux[snap[0]:]
+        self.nloop, self.njoin, self.nfresh, self.fuel = snap[1], snap[2], snap[3], snap[4]
+        rest_text = cont()      # first: the rest (its own join points come before this one in the file)
+        mentioned = lambda v: re.search(r"(?<![A-Za-z0-9_.])%s(?![A-Za-z0-9_])" % re.escape(v), rest_text)
+        assigned = self._assigned(stmts)
+        live = [v for v in assigned if v in after_build and mentioned(v)]
+        free = [v for v in before if v not in live and mentioned(v)]
+        self.constructs.add("join point: the statements after an if / try are ONE auxiliary definition of the variables they read")
+        binders = "".join(" (%s : %s)" % (v, lean_ty(self.env[v])) for v in free + live)
+        self.aux.append("def %s%s%s : Except %s %s :=\n%s\n" % (
+            name, self.implicit, binders, self.exc_ty, _atom(lean_ty(self.full_ret_ty or self.ret_ty)), _ind(rest_text)))
+        call = "(%s)" % " ".join([name] + free + live)
+        return build(lambda: call)
 
     def try_stmt(self, s, cont):
         """
